@@ -154,4 +154,105 @@ theorem gen_sign_taproot_input (sha256 : Bytes → Bytes) (T : Tables) (priv pub
           · have c : (sighash != 0) = true := by simpa using h
             simp only [c, if_true, ne_eq, h, not_false_eq_true]
 
+/-! ### the merkle path (nested function with a threaded `nonlocal` counter) and the control block -/
+
+def castR (r : (Bytes × Bool) × Nat) : (Bytes × Bool) × Int := (r.1, (r.2 : Int))
+
+theorem eq_cast (a b : Nat) : (((a : Int) == (b : Int))) = (a == b) := by
+  by_cases h : a = b
+  · subst h; rw [beq_self_eq_true, beq_self_eq_true]
+  · rw [beq_eq_false_iff_ne.mpr h, beq_eq_false_iff_ne.mpr (by omega)]
+
+theorem gen_traverse_fuel (sha256 : Bytes → Bytes) (T : Tables) (target : Nat) (t : Model.Tree) (hs : SmallTree T t) (fuel : Nat)
+    (hf : Py.treeDepth.go (toPyTree t) < fuel) (tr : Nat) :
+    Gen.traverse_level_fuel fuel sha256 T.opCodes (target : Int) (some (toPyTree t)) (tr : Int) =
+      (traverse sha256 T target t tr).map castR := by
+  induction t generalizing fuel tr with
+  | leaf s =>
+    cases fuel with
+    | zero => omega
+    | succ fuel =>
+      unfold Gen.traverse_level_fuel traverse toPyTree
+      simp only [Py.treeIsList, Bool.false_eq_true, if_false, eq_cast, Py.treeLeafToks, ok_bind]
+      by_cases h : tr = target
+      · subst h
+        simp only [beq_self_eq_true, if_true]
+        rfl
+      · have c : (tr == target) = false := by simpa using h
+        simp only [c, Bool.false_eq_true, if_false, h]
+        rw [C08Gen.gen_tapleaf sha256 T s hs]
+        cases tapleafHash sha256 T s <;> rfl
+  | one t ih =>
+    cases fuel with
+    | zero => omega
+    | succ fuel =>
+      have hd : Py.treeDepth.go (toPyTree t) < fuel := by
+        have : Py.treeDepth.go (toPyTree (Tree.one t)) = Py.treeDepth.go (toPyTree t) + 1 := rfl
+        omega
+      unfold Gen.traverse_level_fuel traverse toPyTree
+      simp only [Py.treeIsList, Py.treeLen, Py.treeChild, if_true, ok_bind, show ((1 : Int) == 1) = true from rfl, true_or]
+      rw [ih hs fuel hd tr]
+      cases traverse sha256 T target t tr with
+      | error e => rfl
+      | ok r => rfl
+  | two l r ihl ihr =>
+    cases fuel with
+    | zero => omega
+    | succ fuel =>
+      have hd : Py.treeDepth.go (toPyTree l) < fuel ∧ Py.treeDepth.go (toPyTree r) < fuel := by
+        have : Py.treeDepth.go (toPyTree (Tree.two l r)) = max (Py.treeDepth.go (toPyTree l)) (Py.treeDepth.go (toPyTree r)) + 1 := rfl
+        omega
+      unfold Gen.traverse_level_fuel traverse toPyTree
+      simp only [Py.treeIsList, Py.treeLen, Py.treeChild, if_true, ok_bind, show ((2 : Int) == 1) = false from rfl,
+        show ((2 : Int) == 2) = true from rfl, Bool.false_eq_true, if_false, true_or,
+        show ¬ ((1 : Int) = 0 ∨ (1 : Int) = -2) by decide, show ((1 : Int) = 1 ∨ (1 : Int) = -1) by decide]
+      rw [ihl hs.1 fuel hd.1 tr]
+      cases hl : traverse sha256 T target l tr with
+      | error e => rfl
+      | ok ra =>
+        obtain ⟨⟨a, a1⟩, tr1⟩ := ra
+        simp only [Except.map, castR, ok_bind]
+        rw [ihr hs.2 fuel hd.2 tr1]
+        cases hr : traverse sha256 T target r tr1 with
+        | error e => rfl
+        | ok rb =>
+          obtain ⟨⟨b, b1⟩, tr2⟩ := rb
+          simp only [Except.map, castR, ok_bind]
+          cases a1 with
+          | true => rfl
+          | false =>
+            cases b1 with
+            | true => rfl
+            | false =>
+              simp only [Bool.false_eq_true, if_false]
+              rw [C08Gen.gen_tapbranch, ok_bind]
+              rfl
+
+theorem gen_traverse (sha256 : Bytes → Bytes) (T : Tables) (target : Nat) (t : Model.Tree) (hs : SmallTree T t) (tr : Nat) :
+    Gen.traverse_level sha256 T.opCodes (target : Int) (some (toPyTree t)) (tr : Int) = (traverse sha256 T target t tr).map castR := by
+  unfold Gen.traverse_level
+  exact gen_traverse_fuel sha256 T target t hs _ (by show Py.treeDepth.go (toPyTree t) < Py.treeDepth.go (toPyTree t) + 1; omega) tr
+
+theorem gen_merkle_path (sha256 : Bytes → Bytes) (T : Tables) (t : Model.Tree) (hs : SmallTree T t) (target : Nat) :
+    Gen.generate_merkle_path sha256 T.opCodes (some (toPyTree t)) (target : Int) = merklePath sha256 T t target := by
+  unfold Gen.generate_merkle_path merklePath
+  simp only []
+  rw [show (0 : Int) = ((0 : Nat) : Int) from rfl, gen_traverse sha256 T target t hs 0]
+  cases traverse sha256 T target t 0 with
+  | error e => rfl
+  | ok r => rfl
+
+theorem gen_control_block (sha256 : Bytes → Bytes) (T : Tables) (pub : Bytes) (t : Model.Tree) (hs : SmallTree T t) (index : Nat)
+    (isOdd : Bool) :
+    (Gen.generate_merkle_path sha256 T.opCodes (some (toPyTree t)) (index : Int) >>= fun path =>
+      Gen.control_block_to_bytes isOdd (pub.take 32) path) = controlBlock sha256 T pub t index isOdd := by
+  rw [gen_merkle_path sha256 T t hs index]
+  unfold controlBlock
+  cases merklePath sha256 T t index with
+  | error e => rfl
+  | ok path =>
+    rw [ok_bind, ok_bind]
+    unfold Gen.control_block_to_bytes
+    cases isOdd <;> rfl
+
 end GenTapSign
